@@ -358,15 +358,35 @@ class VBytes(object):
             return self.real().count(VBytes(sub).real() if _is_byteslike(sub) else sub)
         raise EngineLeak("count on symbolic bytes")
 
+    def _strip(self, chars, left, right):
+        cd = list(b' \t\n\r\x0b\x0c') if chars is None else list(VBytes(chars)._d)
+        d = list(self._d)
+
+        def member(v):
+            r = s_or(*[v == c for c in cd]) if cd else False
+            return r if isinstance(r, bool) else cur().branch(r.e)
+        if left:
+            while d and member(d[0]):
+                d.pop(0)
+        if right:
+            while d and member(d[-1]):
+                d.pop()
+        return VBytes._mk(d)
+
     def lstrip(self, chars=None):
-        if self.is_concrete():
-            return VBytes(self.real().lstrip(None if chars is None else VBytes(chars).real()))
-        raise EngineLeak("lstrip on symbolic bytes")
+        return self._strip(chars, True, False)
 
     def rstrip(self, chars=None):
-        if self.is_concrete():
-            return VBytes(self.real().rstrip(None if chars is None else VBytes(chars).real()))
-        raise EngineLeak("rstrip on symbolic bytes")
+        return self._strip(chars, False, True)
+
+    def strip(self, chars=None):
+        return self._strip(chars, True, True)
+
+    def removeprefix(self, p):
+        return self[len(p):] if self.startswith(p) else self
+
+    def removesuffix(self, p):
+        return self[:len(self) - len(p)] if len(p) and self.endswith(p) else self
 
     def lower(self):
         return VBytes._mk([_lower(v) for v in self._d])
@@ -731,18 +751,40 @@ class VStr(object):
             out.extend(VStr(x)._d)
         return VStr._mk(out)
 
-    def rstrip(self, chars=None):
+    def _strip(self, chars, left, right):
         if chars is None:
-            raise EngineLeak("rstrip() without chars on VStr")
+            if not self.is_concrete():
+                raise EngineLeak("strip() without chars on a symbolic VStr (Unicode whitespace table)")
+            r = self.real()
+            return VStr(r.strip() if left and right else (r.lstrip() if left else r.rstrip()))
         cd = VStr(chars)._d
         d = list(self._d)
-        while d:
-            r = s_or(*[d[-1] == c for c in cd])
-            if (r if isinstance(r, bool) else cur().branch(r.e)):
+
+        def member(v):
+            r = s_or(*[v == c for c in cd]) if cd else False
+            return r if isinstance(r, bool) else cur().branch(r.e)
+        if left:
+            while d and member(d[0]):
+                d.pop(0)
+        if right:
+            while d and member(d[-1]):
                 d.pop()
-            else:
-                break
         return VStr._mk(d)
+
+    def rstrip(self, chars=None):
+        return self._strip(chars, False, True)
+
+    def lstrip(self, chars=None):
+        return self._strip(chars, True, False)
+
+    def strip(self, chars=None):
+        return self._strip(chars, True, True)
+
+    def removeprefix(self, p):
+        return self[len(p):] if self.startswith(p) else self
+
+    def removesuffix(self, p):
+        return self[:len(self) - len(p)] if len(p) and self.endswith(p) else self
 
     def encode(self, encoding='utf-8', errors='strict'):
         enc = encoding.lower().replace('-', '').replace('_', '')
